@@ -12,7 +12,8 @@ func init() {
 			Prop: "C11",
 			Pkgs: []string{"board", "uci", "attacks"},
 			Bounds: []string{
-				"robustness: every byte string of length 0..L, L = 24 (quick) / 40 (thorough), all bytes symbolic, length symbolic; every parser loop unrolled L+2 times with an unwinding assertion; no-panic over every index/slice/shift/map site of ParseFEN and fenParser.*",
+				"robustness: every byte string of length 0..L, L = 20 (quick) / 40 (thorough), all bytes symbolic, length symbolic; every parser loop unrolled L+2 times with an unwinding assertion; no-panic over every index/slice/shift/map site of ParseFEN and fenParser.*",
+				"board reuse: the same bytes (length <= L-4) parsed into a zero board and into a board holding an arbitrary earlier position give the same verdict and position",
 				"piece-count gate: ARBITRARY valid position (no material bound beyond validity)",
 				"position command: board.FromFEN replaced by an arbitrary (board, error) result; the board returned is an arbitrary symbolic board",
 			},
@@ -25,12 +26,14 @@ func init() {
 				"strings longer than L bytes; the tuner's epd.Parse wrapper",
 			},
 		}
-		L := int64(24)
+		L := int64(20)
 		if tier == "thorough" {
 			L = 40
 		}
 		s.Instances = append(s.Instances, run.Instance{Pkg: "board", Func: "VpH_C11_robust", Params: map[string]int64{"maxlen": L},
 			Opt: run.Options{LoopBound: int(L) + 2, UnwindMode: "assert", TimeoutMs: 600000}})
+		s.Instances = append(s.Instances, run.Instance{Pkg: "board", Func: "VpH_C11_reuse", Params: map[string]int64{"maxlen": L - 4},
+			Opt: run.Options{LoopBound: int(L) + 2, UnwindMode: "assume", PanicMode: "ignore", TimeoutMs: 600000}})
 		for stm := int64(0); stm < 2; stm++ {
 			s.Instances = append(s.Instances, run.Instance{Pkg: "board", Func: "VpH_C11_counts", Params: map[string]int64{"stm": stm}})
 		}
